@@ -218,8 +218,9 @@ class Models:
 
     def compare(self, c, op, a, b, node):
         if isinstance(op, (ast.Is, ast.IsNot)) and (a is None or b is None) and (isinstance(a, OptV) or isinstance(b, OptV)):
+            from .values import zn
             o = a if isinstance(a, OptV) else b
-            return o.isnone if isinstance(op, ast.Is) else z3.Not(o.isnone)
+            return zn(o) if isinstance(op, ast.Is) else z3.Not(zn(o))
         a, b = c.force(a), c.force(b)
         if isinstance(op, ast.Eq):
             return self.eq(c, a, b)
